@@ -22,6 +22,10 @@ CLAIMED = {
    technique="explicit-state exploration of all well-nested registry operation trees (<=4 ops, nesting <=2; thorough <=5/3) on fresh real registries against a reference automaton, plus the automaton monitored on real starts with every single injected fault followed by repeated lookups",
    text="Layer 1 enumerates every operation tree over {Get(n,early?), InCreation(n), Create(n){body}->ok|err x ok|failing early factory} on names {a,b} up to the bound on a fresh real registry, checking on every step: one early reference per attempt, published instance is the only answer afterwards, no re-run of the factory, and after a failed creation no in-creation mark, no instance with nil error, and a new Create re-runs the factory. Layers 2/3 monitor the same automaton on every registry call of 3-node graph starts with every single fault site armed, then look every name up three times.",
    note="Trusted: the monitoring wrapper around the real registry (installed through an overlay-added constructor). Outside: >2 names / >5 operations at registry level; pairs of faults (C09 covers pairs for its own oracle)."),
+ "C06": dict(engine=E1, design="§7 C06",
+   technique="bounded exhaustive enumeration of provider populations over a typed universe x consumer field kinds x iteration orders on the real container; admissible-set reference model",
+   text="All 5^6 populations over six provider types (exact pointer type, three interfaces, same-struct twin type, lazy provider; absent / default-named / named / both / two named) are started with a consumer carrying every field kind (*T, I, []*T, []I, any, []any, func-tag forms) under both base orders; 3^6 populations x 13 required single-point consumers; small populations under every single non-default iteration answer. Per point: slice = every admissible component exactly once except the holder; single = an admissible one; none admissible => error iff required.",
+   note="Trusted: iteration-order shim; the admissible-set model (type identity, interface implementation, method presence/result). Outside: methods with parameters, more than two instances per type."),
  "C05": dict(engine=E1, design="§7 C05",
    technique="bounded exhaustive enumeration of graphs x lazy/eager x observer sets x iteration orders (deviation bound 1) on the real container; event-log oracle",
    text="All 3-node graphs x 8 lazy assignments x {0,1,2} observing processors x orders (all 6 base permutations; every single non-default iteration answer) are started for real; the event log must show exactly one populate->before->AfterPropertiesSet->Init->after sequence per created node, population complete before before-init (snapshot), non-back-depending dependencies initialised first, lazy nodes only on demand and exactly once.",
